@@ -4,6 +4,7 @@ import (
 	"go/token"
 	"go/types"
 	"sort"
+	"strconv"
 	"strings"
 
 	"golang.org/x/tools/go/ssa"
@@ -732,6 +733,19 @@ func checkKeyOperandTypes(p *an.Prog, r *an.Run) {
 			format, ok := an.ConstString(c.Common().Args[0])
 			if !ok || !strings.HasPrefix(format, "vip:") {
 				continue
+			}
+			// one spelling per key space: the id goes in with %s everywhere (a %q, %v or %x at one site reads and writes
+			// records nobody else ever looks at)
+			if i := strings.IndexByte(format, '%'); i >= 0 {
+				okVerb := false
+				for pre := range badgerPrefixSpace {
+					if format == pre+"%s" {
+						okVerb = true
+					}
+				}
+				if !okVerb {
+					bad = append(bad, "the key format "+strconv.Quote(format)+" at "+p.Pos(c.Pos())+" is not a known key prefix followed by %s: records written under it are not the ones the other operations of that key space read")
+				}
 			}
 			els, ok := variadicElems(c.Common().Args[len(c.Common().Args)-1])
 			if !ok {
